@@ -50,6 +50,12 @@ def scn_digest(lines):
     return hashlib.sha256("\n".join(lines).encode()).hexdigest()[:12]
 
 
+def oracle_only(sid):
+    """scenario ids of the oracle-only family (`ob_...`, also when another generator re-uses them
+    under a prefix, as C08 does)"""
+    return sid.startswith("ob_") or "_ob_" in sid
+
+
 def generic_runner(P, exe, model_ok, rng, tier, replay=None):
     pid = P["id"]
     if replay:
@@ -62,7 +68,7 @@ def generic_runner(P, exe, model_ok, rng, tier, replay=None):
     if model_ok and P.get("model", True):
         # scenarios whose id starts with "ob_" are ORACLE-ONLY (grids too large for the model driver):
         # the implementation's outputs are judged by the independent oracle, nothing is replayed
-        mod, mnotes = run.run_model(build.model_exe(), {k: v for k, v in impl.items() if not k.startswith("ob_")})
+        mod, mnotes = run.run_model(build.model_exe(), {k: v for k, v in impl.items() if not oracle_only(k)})
     fails, corr_broken = [], []
     first_div = None
     nontrivial = set()
@@ -97,7 +103,7 @@ def generic_runner(P, exe, model_ok, rng, tier, replay=None):
                 cause = P.get("cause", lambda s, f: "other")(si, (clause, wit))
                 fails.append(dict(clause=clause, cause=cause, witness="scenario %s: %s" % (sid, wit), scenario_text=text_of[sid]))
         # correspondence with the model
-        if model_ok and P.get("model", True) and not sid.startswith("ob_"):
+        if model_ok and P.get("model", True) and not oracle_only(sid):
             sm = mod.get(sid)
             d = run.diff_scn(si, sm, P.get("sections"))
             compared += 1
